@@ -270,6 +270,7 @@ theorem prism_probe_eq_probe_array (P : FourierPair ι) (A : ι → ℝ) (aberr 
       = AbtemVerif.Props.C05.probeArray P pos A aberr := by
   unfold AbtemVerif.Props.C05.probeArray
   rw [AbtemVerif.Props.C05.probeSpectrumOps_eq, prism_coefficients_eq_probe_spectrum A aberr pos hpos]
+  rfl
 
 /-- `reduce_eq_multislice_of_built_probe`: the headline for interpolation 1 — reducing the scattering matrix with the coefficients
 the code computes equals running multislice on the probe `Probe.build` makes, for every transform pair, potential (slice
@@ -879,11 +880,21 @@ theorem eager_eq_reference (mean isWaves : Bool) (m : Nat) (rs : List Arr) :
     unfold referenceDetect
     simp [h']
 
-/-- what the pinned tree did (defect repaired by /repo f4e1cd1b): treating exit waves like a measurement collapses the
-ensemble to one row, so with two or more configurations the per-configuration exit waves are lost -/
-lemma legacy_averaging_loses_configurations (m : Nat) (rs : List Arr) :
-    (eagerDetect true false m rs).length = 1 := by
-  rw [eager_eq_reference]; simp [referenceDetect]
+/-- Negation witness (known findings `s-matrix-over-exit-planes-raises:eager|lazy`): it is NOT true that the block built for one
+ensemble member always fits the slot allocated for it — with `p > 1` exit planes the block has a leading axis of length `p`
+that the allocation `ensemble_shape + (len(self),) + gpts` has no room for (numpy: "could not broadcast input array").  A repair
+has to add the exit-plane axis to `allocatedShape` (and to the axes metadata), which makes this statement false. -/
+theorem exit_plane_block_fits_counterexample :
+    ¬ (∀ (p K : Nat) (g : Nat × Nat), broadcastsInto (builtBlockShape p K g) (allocatedShape [] K g) = true) := by
+  intro h
+  have := h 3 21 (16, 16)
+  revert this
+  decide
+
+/-- without exit planes (one exit plane) the block always fits -/
+theorem single_exit_plane_block_fits (K : Nat) (g : Nat × Nat) :
+    broadcastsInto (builtBlockShape 1 K g) (allocatedShape [] K g) = true := by
+  simp [broadcastsInto, builtBlockShape, allocatedShape]
 
 end Ensemble
 
